@@ -30,10 +30,11 @@ fn block(bound: Vec<String>, value: String) {
     let bound = ManuallyDrop::new(bound);
     let value = ManuallyDrop::new(value);
     let r = covers(&bound, &value);
-    // explicit restatement (decisive under native playback)
-    assert!(post_iff(&bound, &value, &r), "OBL:C19.covers.iff");
+    // the two documented special cases first (a refutation is then reported under the
+    // documentation's own words), the full characterisation last
     assert!(post_empty_list_unrestricted(&bound, &r), "OBL:C19.covers.empty_list_unrestricted");
     assert!(post_empty_value_never_bounded(&bound, &value, &r), "OBL:C19.covers.empty_value_never_bounded");
+    assert!(post_iff(&bound, &value, &r), "OBL:C19.covers.iff");
     kani::cover!(r, "COVER:covered");
     kani::cover!(!r, "COVER:not_covered");
 }
